@@ -283,6 +283,27 @@ def _gen(case):
         imp = implicit.compile_tree({"x": {"row": pattern, "type": "normal", "children": {}}})
     except Exception as e:   # a rule line of the grammar must compile in every rulebook kind
         raise Violation("compile-raises", f"rule line {text!r} ({vendor}) does not compile: {type(e).__name__}: {e}", {"pattern": pattern, "text": text})
+    # the same rule as an IGNORE rule of a filter ACL ('!row', compile_acl_text(..., allow_ignore=True) - what --filter-acl passes):
+    # the '!' marks the rule, it is not part of the row
+    try:
+        acl_ign = compile_acl_text("!" + sep.join(pattern.split(" ")) + "\n", vendor, allow_ignore=True)
+        (irule,) = list(acl_ign["local"].values()) + list(acl_ign["global"].values())
+    except Exception as e:
+        raise Violation("compile-raises", f"ignore rule {'!' + pattern!r} ({vendor}) does not compile with allow_ignore: {type(e).__name__}: {e}",
+                        {"pattern": pattern})
+    # the (?i) marker written inside a word regex instead of in front of the row ('interface */(?i)meth[\d\/]+/' in the shipped
+    # huawei.order): the whole rule ignores case, in its plain and in its negated form alike
+    mid = None
+    if icase and any(t.startswith("*/") for t in toks):
+        mt = list(toks)
+        k = next(i for i, t in enumerate(mt) if t.startswith("*/"))
+        mt[k] = "*/(?i)" + mt[k][2:]
+        midtext = sep.join(mt) + "\n"
+        try:
+            mid = (list(compile_acl_text(midtext, vendor)["local"].values())[0], list(compile_ordering_text(midtext, vendor).values())[0])
+        except Exception as e:
+            raise Violation("compile-raises", f"rule line {midtext!r} ({vendor}) does not compile: {type(e).__name__}: {e}", {"text": midtext})
+        labels.append("icase-marker-inside-word-regex")
     if case.get("nested_under"):
         labels.append("nested-rule")
         ntext = case["nested_under"] + "\n    " + text
@@ -328,9 +349,25 @@ def _gen(case):
             if (rxx.match(xrow) is not None) != (exp is not None):
                 raise Violation("kind-disagrees", f"{name}: pattern {pattern!r} row {xrow!r}: {rxx.match(xrow) is not None} vs rule language {exp is not None}",
                                 {"pattern": pattern, "row": row})
+        if (irule["attrs"]["direct_regexp"].match(row) is not None) != (exp is not None):
+            raise Violation("kind-disagrees", f"acl-ignore-rule: '!{pattern}' row {row!r}: {irule['attrs']['direct_regexp'].match(row) is not None} "
+                            f"vs rule language {exp is not None} (compiled {irule['attrs']['direct_regexp'].pattern!r})", {"pattern": pattern, "row": row})
+        if mid is not None:
+            for name, rxx in (("acl-direct/(?i) inside", mid[0]["attrs"]["direct_regexp"]), ("order-direct/(?i) inside", mid[1]["attrs"]["direct_regexp"])):
+                if (rxx.match(row) is not None) != (exp is not None):
+                    raise Violation("kind-disagrees", f"{name}: pattern {pattern!r} row {row!r}: {rxx.match(row) is not None} vs rule language "
+                                    f"{exp is not None}", {"pattern": pattern, "row": row})
+            if not starts_rev:
+                for name, rxx in (("acl-reverse/(?i) inside", mid[0]["attrs"]["reverse_regexp"]),
+                                  ("order-reverse/(?i) inside", mid[1]["attrs"]["reverse_regexp"])):
+                    if (rxx.match(rev + " " + row) is not None) != (exp is not None):
+                        raise Violation("kind-disagrees", f"{name}: negated pattern {pattern!r} vs row {rev + ' ' + row!r}: "
+                                        f"{rxx.match(rev + ' ' + row) is not None}, expected {exp is not None}", {"pattern": pattern, "row": row})
         # reverse forms: the negated rule matches the negated row
         if not starts_rev:
             nrow = rev + " " + row
+            if (irule["attrs"]["reverse_regexp"].match(nrow) is not None) != (exp is not None):
+                raise Violation("kind-disagrees", f"acl-ignore-rule reverse: '!{pattern}' vs row {nrow!r}", {"pattern": pattern, "row": nrow})
             for name, rxx in (("acl-reverse", arule["attrs"]["reverse_regexp"]),
                               ("order-reverse", list(order.values())[0]["attrs"]["reverse_regexp"])):
                 if (rxx.match(nrow) is not None) != (exp is not None):
